@@ -112,6 +112,21 @@ def gen_case(rng, nframes, frag=None, mem=None):
         ops.append([5])
         for h in range(min(nread, 3)):
             ops.append([2, h])
+    # the stream's SPS/PPS are not known when the packetizer is built: they arrive as an operation of the history
+    # (before the first frame mostly; after some frames, between two key frames, or changing later in some)
+    if rng.random() < 0.75:
+        sps, pps = cfg[5], cfg[6]
+        cfg[5] = cfg[6] = b""
+        r = rng.random()
+        if r < 0.6:
+            at = 0
+        else:
+            keys = [i for i, o in enumerate(ops) if o[0] == 0 and o[1] == 1]
+            at = rng.choice(keys[:6]) + rng.choice([0, 1]) if keys and r < 0.85 else rng.randrange(0, min(len(ops), 12) + 1)
+        ops.insert(at, [6, sps, pps])
+        if rng.random() < 0.25:
+            ops.insert(rng.randrange(at + 1, len(ops) + 1), [6, rng.choice([b"\x67\x64\x00\x1f\xac", sps, b""]),
+                                                              rng.choice([b"\x68\xee\x3c\x80", pps])])
     return [cfg, dtok, ops]
 
 
@@ -391,7 +406,8 @@ def run(ck):
         rule="camera-like frame sequences with synthetic 90 kHz PTS (phases video+audio / video only / audio only, GOP of 1..60 "
              "frames against fragments of -1,0,1,2,3,5 s so both shorter and longer than the fragment and >= 2 fragments, jittered "
              "and jumping audio timestamps, key frames on the duration boundary +-1 tick, PTS origin 0 / at the fragment boundary / near 2^33, "
-             "empty and multi-packet payloads, dts != pts) pushed through the real H.264/AAC TS packetizers into hls.SegmentGenerator in "
+             "empty and multi-packet payloads, dts != pts; the stream's SPS/PPS assigned to the VideoMeta after the packetizer was built, as an "
+             "operation before the first frame / after some frames / between key frames / changing later) pushed through the real H.264/AAC TS packetizers into hls.SegmentGenerator in "
              "memory and disk mode, interleaved with Segment fetches (readers kept and read later), M3u8 calls with other tokens (slices kept "
              "and re-read) and Close; after every operation playlist text + parsed view, resolvable numbers, files on disk and the demultiplexed "
              "(and re-multiplexed, byte-compared) content of each newly listed segment are compared with the extracted model and judged by the "
